@@ -696,3 +696,127 @@ func GenStructuredC03(r *hx.RNG) *Case {
 	}
 	return c
 }
+
+// ---------- plugins that run the chain on copies: dual_selector, fallback ----------
+
+// subChain: a small sequence body: [cache?] [ecs/fwdopt?] {forward | local answer | reject | nothing} [ttl?]
+func subChain(r *hx.RNG, xs *[]XDesc, ws *[]WDesc, up int, allowCache bool) []TRule {
+	var rules []TRule
+	addX := func(d XDesc, ms ...TMatch) {
+		*xs = append(*xs, d)
+		rules = append(rules, TRule{Ms: ms, Kind: "exec", Arg: len(*xs) - 1})
+	}
+	addW := func(d WDesc) {
+		*ws = append(*ws, d)
+		rules = append(rules, TRule{Kind: "wrap", Arg: len(*ws) - 1})
+	}
+	if allowCache && r.Chance(1, 3) {
+		addW(WDesc{Kind: "cache"})
+	}
+	if r.Chance(1, 2) {
+		if r.Bool() {
+			addW(GenEcs(r))
+		} else {
+			addW(GenFwdOpt(r))
+		}
+	}
+	switch r.Intn(8) {
+	case 0:
+		addX(GenHosts(r))
+	case 1:
+		rules = append(rules, TRule{Kind: "reject", Arg: hx.Pick(r, []int{-1, 0, 3})})
+	case 2:
+		// nothing: the sub-sequence leaves no response
+	default:
+		addX(XDesc{Kind: "forward", Up: up})
+	}
+	if r.Chance(1, 4) {
+		addX(GenTTL(r))
+	}
+	return rules
+}
+
+// GenCopyingCase: a program around one dual_selector or one fallback, with
+// option-forwarding plugins before and after it, caches, and queries of type
+// A / AAAA for a few names.
+func GenCopyingCase(r *hx.RNG) *Case {
+	var xs []XDesc
+	var ws []WDesc
+	var ss []TSeq
+	var entry []TRule
+	addW := func(d WDesc) {
+		ws = append(ws, d)
+		entry = append(entry, TRule{Kind: "wrap", Arg: len(ws) - 1})
+	}
+	pre := func() {
+		for i := r.Range(0, 2); i > 0; i-- {
+			switch r.Intn(4) {
+			case 0:
+				addW(WDesc{Kind: "cache"})
+			case 1:
+				addW(GenEcs(r))
+			case 2:
+				addW(GenFwdOpt(r))
+			default:
+				addW(GenRedirect(r))
+			}
+		}
+	}
+	nUp := 2
+	if r.Bool() {
+		// dual_selector: pre-wrappers, selector, then the rest of the chain
+		pre()
+		addW(WDesc{Kind: "dual", V6: r.Chance(1, 3)})
+		entry = append(entry, subChain(r, &xs, &ws, 0, true)...)
+	} else {
+		// fallback over two sub-sequences; a standing-by secondary shares no cache with the primary
+		standby := r.Chance(1, 2)
+		p := subChain(r, &xs, &ws, 0, true)
+		s := subChain(r, &xs, &ws, 1, true)
+		ss = append(ss, TSeq{Name: 1, Rules: p}, TSeq{Name: 2, Rules: s})
+		pre()
+		xs = append(xs, XDesc{Kind: "fallback", Prim: 1, Sec: hx.Pick(r, []int{2, 2, 2, 1}), Standby: standby})
+		if standby {
+			xs[len(xs)-1].Sec = 2
+		}
+		entry = append(entry, TRule{Kind: "exec", Arg: len(xs) - 1})
+		if r.Chance(1, 3) {
+			xs = append(xs, GenTTL(r))
+			entry = append(entry, TRule{Kind: "exec", Arg: len(xs) - 1})
+		}
+	}
+	ss = append(ss, TSeq{Name: 0, Rules: entry})
+	c := &Case{Xs: xs, Ws: ws, Prog: ss}
+	// scripts: per upstream 2 templates (so that A and AAAA of one name get different ones), mostly cacheable,
+	// with and without records of type A / AAAA, all with options
+	for u := 0; u < nUp; u++ {
+		var ts []Template
+		for j := 0; j < 2; j++ {
+			t := GenTemplate(r, ScriptOpts{})
+			if r.Chance(3, 4) {
+				t.Fail, t.Rcode = false, 0
+				t.Flags &^= 1 << 9
+			}
+			if !t.Fail && r.Chance(2, 3) && t.Opt == nil {
+				t.Opt = newOPT(1232, r.Bool(), 0, GenOptions(r, 24))
+			}
+			ts = append(ts, t)
+		}
+		c.Scripts = append(c.Scripts, ts)
+	}
+	n := r.Range(3, 6)
+	for i := 0; i < n; i++ {
+		o := QueryOpts{}
+		if r.Chance(3, 4) {
+			o.ForceOpt = 1
+		}
+		q := GenQuery(r, o)
+		q.Msg.Question[0] = dns.Question{Name: NameTable[r.Intn(3)], Qtype: hx.Pick(r, []uint16{1, 28, 28, 16}), Qclass: 1}
+		q.Msg.Opcode = 0
+		if r.Chance(3, 4) {
+			q.Msg.AuthenticatedData, q.Msg.CheckingDisabled = false, false
+		}
+		c.Queries = append(c.Queries, q)
+	}
+	return c
+}
